@@ -320,12 +320,26 @@ func clientFigure8(tier string) *simScenario {
 	return sc
 }
 
+// clientPendingDeposed: leader n1 holds a client update that reached n2 but is not committed; n2 has just won the
+// next term and is about to depose n1 with its first append: the fate of the pending update (ambiguous loss, then
+// committed by n2) must be reported as such
+func clientPendingDeposed() *simScenario {
+	sc := scenClient("pending-deposed", []string{"T:1", "run", "update:1", `ev:{"k":"RS","n":0,"f":2}`, "deliver:2", "block:1:3", "disc", "elect:2", "heal:1:3"},
+		[]string{"read"}, nil, 1, true, false, 0, 1)
+	sc.Menu = simMenu{OrderCost: true, Drops: true, Clients: []string{"read"}, MaxClient: 1}
+	sc.Name += "-delaybounded"
+	sc.MaxDev = 2
+	sc.Crashes = 0
+	return sc
+}
+
 func clientScenarios(tier string) []*simScenario {
 	ops := []string{"update", "read", "barrier", "dirty", "batch2", "update+read", "read+update"}
 	lead := []string{"T:1", "run"}
 	if tier == "thorough" {
 		return []*simScenario{
 			clientFigure8(tier),
+			clientPendingDeposed(),
 			scenClient("leader", lead, ops, []string{"transfer:2", "demote:1"}, 3, true, false, 3, 2),
 			scenClient("leader", lead, ops, []string{"transfer:2", "demote:1"}, 4, false, true, 3, 2),
 			scenClient("isolated", []string{"T:1", "run", "block:1:2", "block:1:3"}, ops, nil, 3, true, false, 2, 2),
@@ -333,6 +347,7 @@ func clientScenarios(tier string) []*simScenario {
 	}
 	return []*simScenario{
 		clientFigure8(tier),
+		clientPendingDeposed(),
 		scenClient("leader", lead, ops, []string{"transfer:2", "demote:1"}, 2, true, false, 2, 1),
 		scenClient("leader", lead, ops, []string{"transfer:2", "demote:1"}, 3, false, true, 2, 2),
 		scenClient("isolated", []string{"T:1", "run", "block:1:2", "block:1:3"}, ops, nil, 2, true, false, 2, 1),
